@@ -111,9 +111,11 @@ type Point struct {
 
 // Step is one executed operation (recorded only when tracing).
 type Step struct {
-	T     int    `json:"t"`
-	Op    string `json:"op"`
-	Where string `json:"at,omitempty"`
+	T     int         `json:"t"`
+	Op    string      `json:"op"`
+	Where string      `json:"at,omitempty"`
+	pcs   [12]uintptr // resolved to Where by the controller after the execution
+	npc   int
 }
 
 func (s Step) String() string { return fmt.Sprintf("T%d %s %s", s.T, s.Op, s.Where) }
@@ -325,7 +327,12 @@ func (s *sched) record(t *thread) {
 	s.steps++
 	s.hash = (s.hash ^ uint64(t.id*32+t.kind+1)) * 1099511628211
 	if s.tracing {
-		s.trace = append(s.trace, Step{T: t.id, Op: OpName(t.kind), Where: callerOutside()})
+		// Only program counters are captured here. Formatting them (fmt, sync.Pool: the race detector
+		// models a Pool hand-over as a happens-before edge, and randomly) must not happen inside a
+		// managed thread, or tracing would order the threads and hide races from the detector.
+		st := Step{T: t.id, Op: OpName(t.kind)}
+		st.npc = runtime.Callers(3, st.pcs[:])
+		s.trace = append(s.trace, st)
 	}
 }
 
@@ -407,6 +414,17 @@ func (t *thread) main(f func()) {
 	normal = true
 	t.s.exitCh <- t.id // real edge: everything this thread did happens-before the controller's drain
 	t.s.exit(t)
+	// Stay alive until the controller has collected the execution: the race detector can only report
+	// a race with an access of a goroutine whose history it still has, and the history of a goroutine
+	// that has ended may be recycled at any moment (reports would come and go from run to run).
+	t.linger()
+}
+
+//go:norace
+func (t *thread) linger() {
+	for !t.abandon {
+		runtime.Gosched()
+	}
 }
 
 func trimStack(b []byte) string {
@@ -427,15 +445,16 @@ func trimStack(b []byte) string {
 	return strings.Join(out, "\n")
 }
 
-// callerOutside names the first caller frame outside the engine packages.
-func callerOutside() string {
-	var pcs [24]uintptr
-	n := runtime.Callers(3, pcs[:])
-	frames := runtime.CallersFrames(pcs[:n])
+// resolve names the first caller frame outside the engine packages (run by the controller).
+func (st *Step) resolve() {
+	if st.npc == 0 {
+		return
+	}
+	frames := runtime.CallersFrames(st.pcs[:st.npc])
 	for {
 		f, more := frames.Next()
 		if f.Function != "" && !strings.HasPrefix(f.Function, "verif/lib/vsync.") && !strings.HasPrefix(f.Function, "verif/lib/vatomic.") &&
-			!strings.HasPrefix(f.Function, "runtime.") {
+			!strings.HasPrefix(f.Function, "verif/lib/vatomic/uber.") && !strings.HasPrefix(f.Function, "runtime.") {
 			fn := f.Function
 			if i := strings.LastIndex(fn, "/"); i >= 0 {
 				fn = fn[i+1:]
@@ -444,10 +463,11 @@ func callerOutside() string {
 			if i := strings.LastIndex(file, "/"); i >= 0 {
 				file = file[i+1:]
 			}
-			return fmt.Sprintf("%s (%s:%d)", fn, file, f.Line)
+			st.Where = fmt.Sprintf("%s (%s:%d)", fn, file, f.Line)
+			return
 		}
 		if !more {
-			return ""
+			return
 		}
 	}
 }
